@@ -290,7 +290,7 @@ def OPT_UNITS(tier):
     not live in assert statements or __debug__ blocks)."""
     us = plan(tier)['units']
     keep = []
-    for kind, n in [('short', 1), ('tree', 6), ('metabody', 2), ('long', 1)]:
+    for kind, n in [('short', 1), ('tree', 4), ('metabody', 2)]:
         keep += [u for u in us if str(u[0]) == kind][:n]
     return keep
 
